@@ -63,3 +63,24 @@ def _finalise():
 
 PENDING = {}
 _finalise()
+
+PROPS['C13'] = dict(
+    modules=['harness.c13_writers'], level='other',
+    files=['pysmi/writer/localfile.py', 'pysmi/writer/pyfile.py', 'pysmi/writer/callback.py', 'pysmi/compat.py'],
+    explanation=XH + '. C13: FileWriter/PyFileWriter/CallbackWriter.putData run on an in-memory file-system model; the '
+                'index of the failing system call, the fault kind (error / short write with a symbolic byte count), '
+                'presence of directory and destination, dry-run, byte-compile outcome and the module text are symbolic.',
+    functions=['pysmi.writer.localfile.FileWriter.putData', 'pysmi.writer.pyfile.PyFileWriter.putData',
+               'pysmi.writer.callback.CallbackWriter.putData', 'pysmi.compat.encode', 'pysmi.compat.decode'],
+    bounds='single fault at call index k<=8; text length <=3 (quick) / <=5 (thorough) over all characters except lone surrogates',
+    stubs=['ModelFS/FakeOs/FakeTempfile/FakePyCompile in harness/envstubs.py replace os, tempfile, py_compile in the writer modules'],
+    outside=['concurrent writers of the same module (schedules)', 'double faults (e.g. unlink failing during clean-up)',
+             'real kernel semantics of rename', 'file-descriptor leaks'],
+    assumptions=['os.write accepts at least the bytes it reports', 'a fault in os.close still releases the descriptor'])
+MANIFEST_TEXT['C13'] = dict(
+    technique='CrossHair symbolic execution of the writers over an in-memory FS with symbolic fault schedule',
+    level_text='Solver-exhaustive within bounds: every single-fault placement (error or short write of any size) x fresh/existing '
+               'destination x dry-run x byte-compile outcome x every text up to the length bound; fault_enumeration done by the solver '
+               'rather than by enumeration.',
+    level_note='Trusted: CrossHair/z3 and its str.encode model; the in-memory FS model. Outside: concurrency, double faults, real rename.')
+_finalise()
